@@ -33,7 +33,15 @@ const (
 	HookRevert           Hook = "Revert"
 	HookClear            Hook = "Clear"
 	HookFinalize         Hook = "Finalize"
+	HookGetMetadata      Hook = "GetMetadata"
+	HookQuery            Hook = "Query"
+	HookProve            Hook = "Prove"
 )
+
+// AllHooks lists every entry point of labi.ABI; each of them can be made to fail with InjectFailure
+// (also those the engine does not call on the consensus path today: Finalize, GetMetadata, Query, Prove).
+var AllHooks = []Hook{HookInit, HookInitStateMachine, HookInitGenesisState, HookInsertAssets, HookVerifyAssets, HookBeforeTxs,
+	HookVerifyTx, HookExecuteTx, HookAfterTxs, HookCommit, HookRevert, HookClear, HookFinalize, HookGetMetadata, HookQuery, HookProve}
 
 // ScriptModule is the module name of the block asset that carries a block's Script. The mock
 // application reads its scripted behaviour for a block from that asset, so a block behaves the
@@ -249,6 +257,7 @@ type MockABI struct {
 	contexts map[string]*abiContext
 	ctxSeq   uint64
 	inject   map[Hook]int // hook -> number of upcoming calls that fail
+	fired    []Hook       // hooks whose injected failure was consumed since the last TakeFired
 }
 
 // NewMockABI creates the mock application.
@@ -263,6 +272,22 @@ func (m *MockABI) InjectFailure(h Hook, times int) {
 	m.mu.Lock()
 	defer m.mu.Unlock()
 	m.inject[h] = times
+}
+
+// ClearInjections drops every injected failure that was not consumed.
+func (m *MockABI) ClearInjections() {
+	m.mu.Lock()
+	defer m.mu.Unlock()
+	m.inject = map[Hook]int{}
+}
+
+// TakeFired returns the hooks whose injected failure (InjectFailure) was consumed since the last call, in call order.
+func (m *MockABI) TakeFired() []Hook {
+	m.mu.Lock()
+	defer m.mu.Unlock()
+	res := m.fired
+	m.fired = nil
+	return res
 }
 
 // ResetCalls empties the call log.
@@ -352,6 +377,7 @@ func (m *MockABI) log(h Hook, ctx *abiContext, detail string, err error) {
 func (m *MockABI) fail(h Hook, ctx *abiContext) error {
 	if n := m.inject[h]; n > 0 {
 		m.inject[h] = n - 1
+		m.fired = append(m.fired, h)
 		return fmt.Errorf("%w at %s", ErrInjected, h)
 	}
 	if ctx != nil && ctx.script != nil && ctx.script.FailHook == string(h) {
@@ -662,14 +688,29 @@ func (m *MockABI) Finalize(req *labi.FinalizeRequest) (*labi.FinalizeResponse, e
 }
 
 func (m *MockABI) GetMetadata(req *labi.MetadataRequest) (*labi.MetadataResponse, error) {
+	m.mu.Lock()
+	defer m.mu.Unlock()
+	if err := m.fail(HookGetMetadata, nil); err != nil {
+		return nil, err
+	}
 	return &labi.MetadataResponse{Data: []byte("{}")}, nil
 }
 
 func (m *MockABI) Query(req *labi.QueryRequest) (*labi.QueryResponse, error) {
+	m.mu.Lock()
+	defer m.mu.Unlock()
+	if err := m.fail(HookQuery, nil); err != nil {
+		return nil, err
+	}
 	return &labi.QueryResponse{Data: []byte("{}")}, nil
 }
 
 func (m *MockABI) Prove(req *labi.ProveRequest) (*labi.ProveResponse, error) {
+	m.mu.Lock()
+	defer m.mu.Unlock()
+	if err := m.fail(HookProve, nil); err != nil {
+		return nil, err
+	}
 	return nil, errors.New("mockabi: Prove not supported")
 }
 
